@@ -103,8 +103,9 @@ def _populated(E):
             lambda I, args, kw: setattr(args[0], 'run_mode', args[1])
     else:
         it.set_pointer = lambda mode, pos=None: setattr(it, 'run_mode', mode)
-    rnd = object.__new__(randomiser.Randomiser)
-    rnd._values = ds.values
+    rnd = E.new(randomiser.Randomiser, ds.values)
+    # the generator has been used before the reset
+    E.call(rnd.rnd_, [None])
     rnd._seed = E.int('seed', 0, (1 << 24) - 1)
     fns = object.__new__(userfunctions.UserFunctionManager)
     fns._fn_dict = {b'FNA!': object()}
@@ -138,6 +139,10 @@ def _all_reset(E, impl, ds, it, rnd, fns, what):
     E.prove(h.enabled is False and h.gosub is None and it._basic_events.suspend_all is False,
             what + ': event traps are off')
     E.prove(rnd._seed == 5228370, what + ': the random sequence restarts')
+    fresh = E.new(randomiser.Randomiser, ds.values)
+    zero = E.new(numbers.Single, None, ds.values)
+    a, b = E.call(rnd.rnd_, [zero]), E.call(fresh.rnd_, [zero])
+    E.prove(not a.raised and not b.raised and bool(same_bytes(a.value, b.value)), what + ': RND(0) is that of a fresh generator (no value from before survives)')
     E.prove(it.data_pos == 0 and it.stop_pos is None, what + ': DATA pointer and CONT position reset')
 
 
